@@ -121,7 +121,11 @@ func upgradeByInlining(c *Ctx, spec *propSpec) {
 		obs     []*Obligation
 	}
 	var views []view
-	for mode := 1; mode <= 2; mode++ {
+	maxMode := 2
+	if os.Getenv("TYPCHECK_NOVIEW2") != "" {
+		maxMode = 1 // experiment switch: how much rests on the view that walks through baseline helpers
+	}
+	for mode := 1; mode <= maxMode; mode++ {
 		an := NewAnalysis(c.P)
 		an.Mode = mode
 		R2 := NewReport(spec.id, c.Tier)
@@ -216,6 +220,11 @@ func upgradeByInlining(c *Ctx, spec *propSpec) {
 			}
 		}
 		for i, v := range views {
+			// Rules that judge every CALL of certain helpers see nothing to judge once those helpers are walked through
+			// (view 2 expands baseline functions too): a verdict reached there is vacuous for them.
+			if i >= 1 && callKeyedRules[strings.TrimPrefix(o.Rule, "map/")] {
+				continue
+			}
 			if h := v.held[o.Key()]; h != nil {
 				o.Verdict = Held
 				o.Msg = h.Msg + fmt.Sprintf(" [established on inlining view %d; plain view: %s]", i+1, o.Msg)
@@ -320,3 +329,7 @@ func callersOfNewHelpers(P *Program) map[string]bool {
 	}
 	return out
 }
+
+// callKeyedRules: rules whose obligations are "at every call of helper X, ...": not to be re-established on the view that
+// walks through baseline helpers.
+var callKeyedRules = map[string]bool{"lookup-justified": true, "callee-precondition": true, "sentinel-guard": true}
